@@ -133,9 +133,12 @@ PadValidTrim(P, X, bc) == TrimEven(Valid2(Pad2(X, Ctr(Len(P)), bc), P), Len(P))
 
 \* ---- integer point-spread functions of the bounded instance ---------------------------
 \* ramp: 1, 2, 3, ... (asymmetric);  quad: irregular with zeros;  sym: symmetric about the centre tap
-\* (for even m the tap 0 has no partner inside the array and is 0)
+\* (for even m the tap 0 has no partner inside the array and is 0);  zeros / ones: the all-zero PSF (an admissible custom
+\* PSF that Python treats as false) and the constant PSF (every legacy PSF function with PSF_param = 0), used by TestProblems
 Psf1(name, m) ==
     CASE name = "ramp" -> [k \in 1..m |-> k]
+      [] name = "zeros" -> [k \in 1..m |-> 0]
+      [] name = "ones"  -> [k \in 1..m |-> 1]
       [] name = "quad" -> [k \in 1..m |-> ((k - 1) * (k - 1) + 3 * (k - 1) + 1) % 7]
       [] name = "sym"  -> [k \in 1..m |-> LET cc == Ctr(m) + 1  p == 2 * cc - k
                                           IN IF p >= 1 /\ p <= m THEN 1 + Ctr(m) - IAbs(k - cc) ELSE 0]
@@ -145,6 +148,7 @@ Flip1(P) == [k \in 1..Len(P) |-> P[Len(P) + 1 - k]]
 \* (separable but not symmetric), used for the Kronecker invariant
 Psf2(name, m) ==
     CASE name = "ramp" -> [k1 \in 1..m |-> [k2 \in 1..m |-> (k1 - 1) * m + k2]]
+      [] name = "zeros" -> [k1 \in 1..m |-> [k2 \in 1..m |-> 0]]
       [] name = "quad" -> [k1 \in 1..m |-> [k2 \in 1..m |-> ((k1 - 1) * (k1 - 1) + 3 * (k2 - 1) + (k1 - 1) * (k2 - 1) + 1) % 7]]
       [] name = "sym"  -> [k1 \in 1..m |-> [k2 \in 1..m |-> Psf1("sym", m)[k1] * Psf1("ramp", m)[k2]]]
 
